@@ -94,6 +94,12 @@ def one_run(scn, check_id, seed, index):
     return [(program,) + r for r in schedules(scn, program, drng)]
 
 
+def _quiet_stderr():
+    """socketserver/http.server print the traceback of a dying connection to sys.stderr: not the check's output."""
+    if not os.environ.get("VERIF_KEEP_STDERR"):
+        sys.stderr = open(os.devnull, "w")
+
+
 # ---------------------------------------------------------------------------
 # worker side
 
@@ -103,6 +109,7 @@ def _worker(args):
     import faulthandler
 
     faulthandler.enable()
+    _quiet_stderr()
     agg = {
         "runs": 0, "steps": 0, "switches": 0, "simtime": 0.0, "nontrivial": 0,
         "digests": set(), "nt_digests": set(), "programs": set(), "states": set(),
@@ -111,6 +118,8 @@ def _worker(args):
         "other_props": {},
     }
     i = wid
+    agg["first_index"] = wid
+    agg["stride"] = nworkers
     t_end = deadline
     must = getattr(scn, "must_cover", 0)
     while (max_runs is None or i < max_runs):
@@ -167,7 +176,8 @@ def _account(agg, i, program, desc, s, viol, stats, props, known):
             continue
         if c not in agg["failures"] and len(agg["failures"]) < 4:
             agg["failures"][c] = {"index": i, "program": program, "trace": sorted(s.trace.items()),
-                                  "net": list(s.net_trace), "msg": v.msg, "digest": dg, "strategy": desc}
+                                  "net": list(s.net_trace), "msg": v.msg, "digest": dg, "strategy": desc,
+                                  "first_index": agg.get("first_index", i), "stride": agg.get("stride", 1)}
 
 
 def _plain(x):
@@ -332,6 +342,13 @@ def replay_file(path, scenarios):
     """Re-executes a replay file; returns (reproduced, text)."""
     with open(path) as fh:
         body = json.load(fh)
+    if body.get("format") == 2:
+        ok, digest, msg = run_history(body["check"], body.get("tier", "quick"), body["verif_seed"], body["history"], body["class"])
+        text = "replay %s (history of %d runs): class=%s reproduced=%s digest=%s expected=%s" % (
+            os.path.basename(path), len(body["history"]), body["class"], ok, digest, body["expected_digest"])
+        if msg:
+            text += "\n  " + msg
+        return bool(ok) and digest == body["expected_digest"], text, None, []
     scn = scenarios[body["scenario"]](body)
     s, viol, stats = scn.run(body["program"], core.TapeDecider(dict((k, v) for k, v in body["tape"])),
                              core.TapeChooser(body.get("net_tape") or []))
@@ -356,6 +373,84 @@ def verify_replay_fresh(path):
 
 
 # ---------------------------------------------------------------------------
+# history replays: a violation that depends on what the same process ran before
+# (code under test keeping state in a module or class attribute)
+
+
+def run_history(check_id, tier, seed, indices, cls):
+    """Runs the given run indices in order in this process; returns (class seen in the last one, digest)."""
+    from . import props
+
+    scn = props.make_scenario(check_id, tier)
+    _quiet_stderr()
+    last = None
+    for idx in indices:
+        last = one_run(scn, check_id, seed, idx)
+    for program, desc, s, viol, stats in last or []:
+        if any(v.cls == cls for v in viol):
+            return True, s.digest(), [v.msg for v in viol if v.cls == cls][0]
+    return False, None, None
+
+
+def _history_subprocess(check_id, tier, seed, indices, cls):
+    env_ = dict(os.environ)
+    env_["PYTHONHASHSEED"] = "0"
+    env_["VERIF_NO_REEXEC"] = "1"
+    p = subprocess.run([sys.executable, os.path.join(HERE, "check"), "_history", check_id, tier, str(seed), cls, json.dumps(indices)],
+                       env=env_, stdout=subprocess.PIPE, stderr=subprocess.DEVNULL, timeout=600)
+    try:
+        out = json.loads(p.stdout.decode().strip().splitlines()[-1])
+    except Exception:
+        return False, None, None
+    return tuple(out)
+
+
+def history_violation(scn_name, check_id, prop, tier, seed, f, cls):
+    """
+    The failing run did not replay on its own: try it together with the runs the same worker process executed
+    before it, in a fresh interpreter, and minimise that history.  Returns a replay file path or None.
+    """
+    indices = list(range(f["first_index"], f["index"] + 1, f["stride"]))
+    ok, digest, msg = _history_subprocess(check_id, tier, seed, indices, cls)
+    if not ok:
+        return None, None
+    t_end = time.time() + float(os.environ.get("VERIF_SHRINK_S", "45")) * 2
+    prefix = indices[:-1]
+    n = 2
+    while prefix and time.time() < t_end:
+        chunk = max(1, len(prefix) // n)
+        removed = False
+        for start in range(0, len(prefix), chunk):
+            cand = prefix[:start] + prefix[start + chunk:]
+            ok2, d2, m2 = _history_subprocess(check_id, tier, seed, cand + [indices[-1]], cls)
+            if ok2:
+                prefix, digest, msg = cand, d2, m2
+                removed = True
+                n = max(n - 1, 2)
+                break
+            if time.time() > t_end:
+                break
+        if not removed:
+            if chunk == 1:
+                break
+            n = min(n * 2, len(prefix))
+    from . import env
+
+    d = os.path.join(HERE, "replays")
+    os.makedirs(d, exist_ok=True)
+    body = {"format": 2, "scenario": scn_name, "check": check_id, "property": prop, "class": cls, "message": msg, "tier": tier,
+            "history": prefix + [indices[-1]], "expected_digest": digest, "verif_seed": seed, "run_index": indices[-1],
+            "tree": env.tree_id(),
+            "note": "the violation depends on state the code under test keeps between the runs of one process: the replay executes these run indices in order in a fresh interpreter"}
+    tag = hashlib.blake2b(json.dumps([cls, body["history"], seed]).encode(), digest_size=5).hexdigest()
+    path = os.path.join(d, "%s-%s.json" % (prop, tag))
+    with open(path, "w") as fh:
+        json.dump(body, fh, indent=1)
+        fh.write("\n")
+    return path, msg
+
+
+# ---------------------------------------------------------------------------
 # the check driver
 
 
@@ -367,6 +462,7 @@ def run_check(scn_factory, scn_name, check_id, prop, tier, seed, budget_s, jobs,
     t0 = time.time()
     known, fixed = load_known()
     scn = scn_factory()
+    real_stderr = sys.stderr
     deadline = t0 + budget_s
     ctx = multiprocessing.get_context("fork")
     args = [(scn, check_id, (prop,), seed, w, jobs, deadline, max_runs, set(known)) for w in range(jobs)]
@@ -408,11 +504,25 @@ def run_check(scn_factory, scn_name, check_id, prop, tier, seed, budget_s, jobs,
         out_lines.append("KNOWN-FINDING: property=%s %s [%s] (hit in %d runs)" % (prop, e.get("what", ""), c, known_hits[c]))
     nviol = 0
     replay_paths = []
+    if failures:
+        _quiet_stderr()
     for c in sorted(failures):
         f = failures[c]
         sh = shrink(scn, f["program"], dict(f["trace"]), c, net=f.get("net"))
         if sh is None:
-            out_lines.append("HARNESS-ERROR property=%s class=%s found in run %d but did not replay in-process" % (prop, c, f["index"]))
+            hpath, hmsg = history_violation(scn_name, check_id, prop, tier, seed, f, c)
+            if hpath is not None:
+                ok, text = verify_replay_fresh(hpath)
+                if ok:
+                    nviol += 1
+                    replay_paths.append(hpath)
+                    out_lines.append("VIOLATION property=%s replay=%s" % (prop, hpath))
+                    out_lines.append("  class: %s" % c)
+                    out_lines.append("  what : %s" % hmsg)
+                    out_lines.append("  note : reproduces only after other runs in the same process (state kept by the code under test between runs); "
+                                     "the replay file lists the run indices to execute in order")
+                    continue
+            out_lines.append("HARNESS-ERROR property=%s class=%s found in run %d but did not replay, neither alone nor with the history of its worker process" % (prop, c, f["index"]))
             rc = max(rc, 2)
             continue
         prog, trace, s, v, used = sh
@@ -421,6 +531,16 @@ def run_check(scn_factory, scn_name, check_id, prop, tier, seed, budget_s, jobs,
                              "net_tape": list(s.net_trace)})
         ok, text = verify_replay_fresh(path)
         if not ok:
+            hpath, hmsg = history_violation(scn_name, check_id, prop, tier, seed, f, c)
+            if hpath is not None and verify_replay_fresh(hpath)[0]:
+                nviol += 1
+                replay_paths.append(hpath)
+                out_lines.append("VIOLATION property=%s replay=%s" % (prop, hpath))
+                out_lines.append("  class: %s" % c)
+                out_lines.append("  what : %s" % hmsg)
+                out_lines.append("  note : reproduces only after other runs in the same process (state kept by the code under test between runs); "
+                                 "the replay file lists the run indices to execute in order")
+                continue
             out_lines.append("HARNESS-ERROR property=%s class=%s replay file %s did not reproduce in a fresh interpreter:\n%s" % (prop, c, path, text))
             rc = max(rc, 2)
             continue
@@ -433,6 +553,7 @@ def run_check(scn_factory, scn_name, check_id, prop, tier, seed, budget_s, jobs,
         out_lines.append("  context switches in minimised schedule: %d (found in run %d, %d shrink runs)" % (len(trace), f["index"], used))
         if c in fixed:
             out_lines.append("  note: this class is recorded as FIXED in known_findings.json (%s) - it has returned" % fixed[c].get("commit"))
+    sys.stderr = real_stderr
     if nviol:
         rc = 1 if rc != 2 else 2
     for e in herr[:5]:
